@@ -99,6 +99,25 @@ def check(tier, seed):
             ct = bytes.fromhex(e['c_tilde'])
             cases.append({'line': f"sample_in_ball 0 {p['tau']} {ct.hex()}", 'tag': 'sample_in_ball on a long rejection run', 'want': ",".join(str(x) for x in R.sample_in_ball(p, ct)), 'model': True})
     core.run_and_judge(rep, cases, model_every=0)
+    # the literal Lean transcription of Algorithm 7 (Spec.signInternal on Spec.skDecode of the key bytes: what sign_internal_is_Sign_internal_as_written
+    # is about) executed on the formatted message M' of Algorithms 2 / 4 (built here, OIDs from the standard), against the crate's signing in every mode
+    sc = []
+    def strip(o):
+        return o.split()[1] if o.startswith('ok ') else o
+    for s in fam.SETS:
+        sk0 = fam.keypair(s, fam.seeds(random.Random(seed + 3), 1)[0])[1]
+        trip = [(mode, fam.messages(rng, 3)[j % 3], (b'', b'ctx', bytes(range(255)))[j % 3], (bytes(32), bytes([0xff]) * 32, bytes(range(32)))[j % 3])
+                for j, mode in enumerate(('pure', 'sha256', 'sha512', 'shake128', 'internal') * (4 if tier == 'thorough' else 1))]
+        for mode, m, c, r in trip:
+            mp = m if mode == 'internal' else R.format_message(mode, m, c)
+            cc = b'' if mode == 'internal' else c
+            sc.append({'rust': f"sign {s} {mode} bytes:{sk0.hex()} {hx(m)} {hx(cc)} ok:{r.hex()}", 'spec': f"spec_sign {s} {sk0.hex()} {hx(mp)} {r.hex()}",
+                       'tag': f'sign ({mode}) == Spec.signInternal executed (literal Lean transcription)', 'map': strip})
+        # rare events: exactly omega hints, omega - 1, empty first / last hint polynomial (corpus)
+        for tag, xi, sk, pk, m, c, r in fam.rare_sign_cases(s)[:4 if tier == 'thorough' else 2]:
+            sc.append({'rust': f"sign {s} pure bytes:{sk.hex()} {hx(m)} {hx(c)} ok:{r.hex()}", 'spec': f"spec_sign {s} {sk.hex()} {hx(R.format_message('pure', m, c))} {r.hex()}",
+                       'tag': 'sign (rare hint shapes) == Spec.signInternal executed (literal Lean transcription)', 'map': strip})
+    core.spec_judge(rep, sc)
     return core.finish(rep, b, 'proof', {
         'rule': 'one case per (set, key, provenance, mode, message, context, rnd); messages of length 0, 1 and around the SHAKE rate edges, contexts of length 0, 1, 254, 255, '
                 'rnd all-00 / all-FF / random; non-trivial = bytes compared with the Python transcription of Algorithms 2, 4, 7',
